@@ -15,7 +15,7 @@ from mc.checks import rules_common as R
 
 PROPERTY = "C09"
 LEVEL = "exploration"
-RULE = ("cases = every ordered sequence of 1..K distinct rules (K=4 quick, 5 thorough) over a 16-rule alphabet "
+RULE = ("cases = every ordered sequence of 1..K distinct rules over a 16-rule alphabet plus every sequence of K+1 rules over its 12 core rules (K=3 quick, 4 thorough) "
         "(priority unset/0/10/90; 1 or 2 pattern functions; constraint kinds none/amount/amount+month/source; short/long patterns; "
         "subcategory set/unset; one tag-only rule; exact-tie pairs (contains vs regex with equal key, amount vs source constraint)); "
         "each on 18 transactions via engine.match and normalize_merchant in most_specific mode. "
@@ -89,15 +89,22 @@ def setup(tier):
 
 
 def bounds(tier):
-    return {"max_rules_per_file": 4 if tier == "quick" else 5, "rules_alphabet": len(RULES), "transactions": len(TXNS),
+    return {"max_rules_per_file": "3 over all 16 rules, 4 over the 12 core rules" if tier == "quick" else "4 over all 16 rules, 5 over the 12 core rules", "rules_alphabet": len(RULES), "transactions": len(TXNS),
             "rank_keys": {r["name"]: k for r, k in zip(RULES, KEYS)}}
 
 
+CORE = list(range(12))      # r0..r11: the rules that vary the four components of the rank key
+
+
 def gen_cases(tier):
-    k = 4 if tier == "quick" else 5
+    # quick: every sequence of <=3 rules over the whole alphabet, plus every sequence of 4 rules over the 12 core rules;
+    # thorough: every sequence of <=4 over the whole alphabet, plus every sequence of 5 over the core rules
+    k = 3 if tier == "quick" else 4
     for n in range(1, k + 1):
         for seq in itertools.permutations(range(len(RULES)), n):
             yield list(seq)
+    for seq in itertools.permutations(CORE, k + 1):
+        yield list(seq)
 
 
 @functools.lru_cache(maxsize=None)
